@@ -149,6 +149,19 @@ Section Block.
     - simpl in E. rewrite stored_put_other by (rewrite I2; congruence). rewrite B1, B2, !get_astate_bal. lia.
   Qed.
 
+  (** the block reward as a DPoS node composes it (chain.DecorateBlockRewardFn): the voting reward first, then the
+      coinbase account is loaded (a FRESH copy, after the hook) and credited with BpReward *)
+  Theorem block_reward_composition_conserves reward winner cb s :
+    nonneg s -> 0 <= reward -> 0 <= bp_reward s ->
+    nonneg (send_reward_coinbase (send_voting_reward reward winner s) cb) /\
+    supply (send_reward_coinbase (send_voting_reward reward winner s) cb)
+      = supply s + (match cb with Some _ => bp_reward s | None => 0 end).
+  Proof.
+    intros Hn Hr Hb. destruct (voting_reward_conserves reward winner s Hn Hr) as (N1&S1&B1&_).
+    destruct (coinbase_supply (send_voting_reward reward winner s) cb N1) as (N2&S2&_); [lia|].
+    split; [exact N2|]. rewrite S2, S1, B1. reflexivity.
+  Qed.
+
   Definition vreward_ok (vr : lstate -> lstate) : Prop :=
     forall s, nonneg s -> nonneg (vr s) /\ supply (vr s) = supply s /\ bp_reward (vr s) = bp_reward s /\ receipts (vr s) = receipts s.
 
